@@ -113,8 +113,10 @@ mut("c20-eager", "C20", "esutil/pbar.py", "    n = 0\n    for obj in iterable:\n
     "length-less iterables are materialised before the first item is yielded")
 mut("c20-isplit-larger-last", "C20", "esutil/algorithm.py", "        [0] + extras * [neach_section+1]\n        + (nchunks-extras) * [neach_section]",
     "        [0] + (nchunks-extras) * [neach_section]\n        + extras * [neach_section+1]", "isplit puts the larger chunks last")
-mut("c20-kv-pivot-data", "C20", "esutil/algorithm.py", "    data[top] = pivot_data                # Put the pivot in its place.", "    data[top] = data[top] if top == end else pivot_data",
-    "key-value partition leaves a stale value when the pivot ends up in place")
+# (first version used `top == end`: equivalent -- when the pivot stays at the end nothing was moved and data[end] still
+# holds the pivot's value; replaced by the case where the pivot is the smallest key of the range)
+mut("c20-kv-pivot-data", "C20", "esutil/algorithm.py", "    data[top] = pivot_data                # Put the pivot in its place.", "    data[top] = data[top] if top == start else pivot_data",
+    "key-value partition leaves a stale value when the pivot is the smallest key of its range")
 # ---------------------------------------------------------------- C15
 mut("c15-inplace-native", "C15", "esutil/recfile/Util.py", "            dataview = to_native(dataview)\n", "            to_native_inplace(dataview)\n",
     "text output byte-swaps the caller's array in place (the original defect)")
